@@ -519,6 +519,8 @@ func parseContent(contentMap map[string]any) (Content, error) {
 		return parseTextContent(contentMap)
 	case "image":
 		return parseImageContent(contentMap)
+	case "audio":
+		return parseAudioContent(contentMap)
 	case "resource", "embedded_resource": // "embedded_resource" was emitted by earlier versions of this library
 		return parseResourceContent(contentMap)
 	default:
@@ -528,8 +530,9 @@ func parseContent(contentMap map[string]any) (Content, error) {
 
 // parseTextContent parses text content
 func parseTextContent(contentMap map[string]any) (Content, error) {
-	text := extractString(contentMap, "text")
-	if text == "" {
+	// An empty text is a valid text content; only a missing or non-string member is an error.
+	text, ok := contentMap["text"].(string)
+	if !ok {
 		return nil, fmt.Errorf("text is missing")
 	}
 	return NewTextContent(text), nil
@@ -537,12 +540,21 @@ func parseTextContent(contentMap map[string]any) (Content, error) {
 
 // parseImageContent parses image content
 func parseImageContent(contentMap map[string]any) (Content, error) {
-	data := extractString(contentMap, "data")
-	mimeType := extractString(contentMap, "mimeType")
-	if data == "" || mimeType == "" {
+	data, okData := contentMap["data"].(string)
+	mimeType, okMime := contentMap["mimeType"].(string)
+	if !okData || !okMime {
 		return nil, fmt.Errorf("image data or mimeType is missing")
 	}
 	return NewImageContent(data, mimeType), nil
+}
+
+func parseAudioContent(contentMap map[string]any) (Content, error) {
+	data, okData := contentMap["data"].(string)
+	mimeType, okMime := contentMap["mimeType"].(string)
+	if !okData || !okMime {
+		return nil, fmt.Errorf("audio data or mimeType is missing")
+	}
+	return NewAudioContent(data, mimeType), nil
 }
 
 // parseResourceContent parses resource content
@@ -586,7 +598,7 @@ func parseResourceContents(contentMap map[string]any) (ResourceContents, error) 
 
 	mimeType := extractString(contentMap, "mimeType")
 
-	if text := extractString(contentMap, "text"); text != "" {
+	if text, ok := contentMap["text"].(string); ok {
 		return TextResourceContents{
 			URI:      uri,
 			MIMEType: mimeType,
@@ -594,7 +606,7 @@ func parseResourceContents(contentMap map[string]any) (ResourceContents, error) 
 		}, nil
 	}
 
-	if blob := extractString(contentMap, "blob"); blob != "" {
+	if blob, ok := contentMap["blob"].(string); ok {
 		return BlobResourceContents{
 			URI:      uri,
 			MIMEType: mimeType,
